@@ -276,6 +276,77 @@ pub fn channel_auth_case(i: usize, via_update: bool) -> Case {
     }
 }
 
+/// C14 validator set: for every order in which three validators can be stored (at instantiation or by an update of the
+/// native section), AddValidator refuses each listed validator and accepts a new one, RemoveValidator removes exactly a
+/// listed one and refuses an unknown one; the list never holds a validator twice and nothing else in storage moves.
+pub fn valset_case(perm: usize, via_update: bool) -> Case {
+    Case {
+        name: format!("cfgmat:valset:{perm}:{}", if via_update { "update" } else { "init" }),
+        run: Box::new(move |f: &Filter, _mw: bool| {
+            let who = Who::new(false);
+            let fee = Uint128::new(symcore::var("fee_rate"));
+            let min = Uint128::new(symcore::var("min_stake"));
+            let vals = [who.val1.clone(), who.val2.clone(), who.val3.clone()];
+            let fresh = addr::addr(&who.vp, 53, 20);
+            let perms = [[0, 1, 2], [0, 2, 1], [1, 0, 2], [1, 2, 0], [2, 0, 1], [2, 1, 0]];
+            let order: Vec<String> = perms[perm].iter().map(|i| vals[*i].clone()).collect();
+            let mut msg = scen::init_msg(&who, &CfgSpec { treasury: false, oracle: false, same_prefix: false, stopped: false }, fee, min);
+            let native = msg.native_chain_config.clone();
+            if !via_update {
+                msg.native_chain_config.validators = order.clone();
+            }
+            let (mut chain, ok) = instantiate_with(msg, &who);
+            claim(f, "C14:the uncorrupted configuration is accepted at instantiation", ok);
+            if !ok {
+                symcore::note("outcome=err".into());
+                return;
+            }
+            if via_update {
+                let mut n = native.clone();
+                n.validators = order.clone();
+                let r = chain.execute(&who.admin.clone(), &[], ExecuteMsg::UpdateConfig { native_chain_config: Some(n), protocol_chain_config: None, protocol_fee_config: None, monitors: None, batch_period: None });
+                claim(f, "C14:a well-formed native section is accepted from the admin", r.is_ok());
+            }
+            let listed = |chain: &Chain| -> Vec<String> { staking::state::CONFIG.load(&chain.deps.storage).unwrap().native_chain_config.validators.iter().map(|a| a.to_string()).collect() };
+            let sorted = |mut v: Vec<String>| {
+                v.sort();
+                v
+            };
+            claim(f, "C14:the stored validator set is the configured one", sorted(listed(&chain)) == sorted(order.clone()));
+            for v in &order {
+                let before = crate::world::dump(&chain.deps.storage);
+                let r = chain.execute(&who.admin.clone(), &[], ExecuteMsg::AddValidator { new_validator: v.clone() });
+                claim(f, "C14:AddValidator refuses every validator that is already listed, whatever the stored order", !r.is_ok());
+                claim(f, "C14:a refused AddValidator changes nothing", crate::world::dump(&chain.deps.storage) == before);
+            }
+            let before = crate::world::dump(&chain.deps.storage);
+            let r = chain.execute(&who.admin.clone(), &[], ExecuteMsg::RemoveValidator { validator: fresh.clone() });
+            claim(f, "C14:RemoveValidator refuses a validator that is not listed", !r.is_ok() && crate::world::dump(&chain.deps.storage) == before);
+            let r = chain.execute(&who.admin.clone(), &[], ExecuteMsg::AddValidator { new_validator: fresh.clone() });
+            claim(f, "C14:AddValidator accepts a new, well-prefixed validator", r.is_ok());
+            let mut want = order.clone();
+            want.push(fresh.clone());
+            claim(f, "C14:add changes exactly the named validator", sorted(listed(&chain)) == sorted(want.clone()));
+            let r = chain.execute(&who.admin.clone(), &[], ExecuteMsg::AddValidator { new_validator: fresh.clone() });
+            claim(f, "C14:AddValidator refuses every validator that is already listed, whatever the stored order", !r.is_ok());
+            // remove them one by one, in the stored order rotated by the permutation index
+            let mut rest = want.clone();
+            for k in 0..want.len() {
+                let v = want[(k + perm) % want.len()].clone();
+                let r = chain.execute(&who.admin.clone(), &[], ExecuteMsg::RemoveValidator { validator: v.clone() });
+                claim(f, "C14:RemoveValidator accepts a listed validator", r.is_ok());
+                rest.retain(|x| *x != v);
+                claim(f, "C14:remove changes exactly the named validator", sorted(listed(&chain)) == sorted(rest.clone()));
+                let l = listed(&chain);
+                claim(f, "C14:no validator is ever listed twice", sorted(l.clone()).windows(2).all(|w| w[0] != w[1]));
+                let r = chain.execute(&who.admin.clone(), &[], ExecuteMsg::RemoveValidator { validator: v.clone() });
+                claim(f, "C14:RemoveValidator refuses a validator that is not listed", !r.is_ok());
+            }
+            symcore::note("outcome=ok".into());
+        }),
+    }
+}
+
 pub fn cases(tier: &str) -> Vec<Case> {
     let mut v = vec![];
     let cfgs = if tier == "thorough" { vec![CfgSpec::base(), CfgSpec { same_prefix: true, ..CfgSpec::base() }] } else { vec![CfgSpec::base(), CfgSpec { same_prefix: true, ..CfgSpec::base() }] };
@@ -286,6 +357,10 @@ pub fn cases(tier: &str) -> Vec<Case> {
     }
     for len in [1usize, 2, 40, 82, 83, 84, 85, 200] {
         v.push(hook_auth_case(len));
+    }
+    for perm in 0..6 {
+        v.push(valset_case(perm, false));
+        v.push(valset_case(perm, true));
     }
     for i in 0..channel_ids().len() {
         v.push(channel_auth_case(i, false));
